@@ -1191,11 +1191,29 @@ token * mmd_tokenize_string(mmd_engine * e, size_t start, size_t len, bool stop_
 					} else if (line->type != LINE_META) {
 						e->allow_meta = false;
 					}
-				} else if (e->allow_meta && line->type == LINE_SETEXT_2) {
-					// A line of dashes after metadata lines closes the metadata
-					// (YAML fence): what follows it is the body, even without
-					// a blank line in between
-					e->allow_meta = false;
+				} else if (e->allow_meta) {
+					switch (line->type) {
+						case LINE_SETEXT_2:
+
+						// A line of dashes after metadata lines closes the metadata
+						// (YAML fence): what follows it is the body, even without
+						// a blank line in between.  The same holds for the other
+						// lines that cannot be part of a metadata block
+						case LINE_SETEXT_1:
+						case LINE_HR:
+						case LINE_BACKTICK:
+						case LINE_FENCE_BACKTICK_3:
+						case LINE_FENCE_BACKTICK_4:
+						case LINE_FENCE_BACKTICK_5:
+						case LINE_FENCE_BACKTICK_START_3:
+						case LINE_FENCE_BACKTICK_START_4:
+						case LINE_FENCE_BACKTICK_START_5:
+							e->allow_meta = false;
+							break;
+
+						default:
+							break;
+					}
 				}
 
 				if (stop_on_empty_line) {
